@@ -271,8 +271,11 @@ def check_c04(repo, tier):
 
     for d in orders:
         variants = [('int', 0.0), ('int', 1e-8), ('list', 1e-8), ('none', 0.0), ('distinct', 1e-8), ('distinct-partial', 0.0)]
-        for how, (capkind, thr) in itertools.product(('ortho', 'init_cores', 'init_array', 'ortho_right', 'ortho_left'), variants):
-            scen = f'{how}(order={d}, max_rank={capkind}, threshold={thr})'
+        grid4 = [(how, v_, 'complex') for how, v_ in itertools.product(('ortho', 'init_cores', 'init_array', 'ortho_right', 'ortho_left'), variants)]
+        # a full array of another dtype (an indicator tensor of booleans, integer counts, real data): the decomposition is the one of the same numbers as floats
+        grid4 += [('init_array', ('none', 0.0), xdt_) for xdt_ in ('bool', 'int', 'real')] if d <= 3 else []
+        for how, (capkind, thr), xdt in grid4:
+            scen = f'{how}(order={d}, max_rank={capkind}, threshold={thr})' + ('' if xdt == 'complex' else f' [full array of dtype {xdt}]')
             if capkind == 'distinct-partial' and (how not in ('ortho_left', 'ortho_right') or d < 3):
                 continue               # a sweep over a sub-range of the cores, every bond with its own cap
             if capkind.startswith('distinct') and how == 'init_array':
@@ -304,7 +307,7 @@ def check_c04(repo, tier):
                 install_svd_snapshots(sc)
                 if how == 'init_array':
                     x = Arr([sc.mode(k) for k in range(d)] + [sc.mode(k, 'n') for k in range(d)],
-                            [(A.mode_leg(k, sc.mode(k), +1, 'x.row'),) for k in range(d)] + [(A.mode_leg(k, sc.mode(k, 'n'), -1, 'x.col'),) for k in range(d)], 'complex', None, {}, 'full array')
+                            [(A.mode_leg(k, sc.mode(k), +1, 'x.row'),) for k in range(d)] + [(A.mode_leg(k, sc.mode(k, 'n'), -1, 'x.col'),) for k in range(d)], xdt, None, {}, 'full array')
                     return sc.interp.instantiate(sc.tt_cls, [x], {'threshold': thr, 'max_rank': cap})
                 cores = sc.cores('a', d, 'op', square=False)
                 if how == 'init_cores':
